@@ -2,7 +2,7 @@
 objects, computes the real jug identifier while recording every chunk fed to sha1, and emits, per
 spec, the digest and a Gallina case literal (pv, observed token stream).
 
-usage: python -m harness.hashworker <specs.json> <out.json> <variant:int> [iso]
+usage: python -m harness.hashworker <specs.json> <out.json> <variant:int> [iso|trace]
 
 Spec language (JSON lists):
   ["leaf", "<python expr>"]                       atomic value, e.g. "None", "2**70", "'a'", "np.float32(1.5)"
@@ -20,7 +20,8 @@ Spec language (JSON lists):
   ["sub", cls, inner]                             instance of a SUBCLASS of inner's type holding inner's content (built in the order
                                                   written, C-contiguous): cls in SUBCLASSES, e.g. "OrderedDict", "Counter",
                                                   "defaultdict_int", "MyDict", "MyDictAttr:1", "MyList", "Point", "MySet", "MyStr",
-                                                  "MyInt", "MyArr", "recarray", "masked" ...
+                                                  "MyInt", "MyArr", "recarray", "masked" ...  (mappings other than OrderedDict and
+                                                  sets in an insertion order, arrays in a layout chosen by the variant)
 """
 import hashlib
 import json
@@ -163,13 +164,18 @@ def realise_sub(spec, rng, shared):
     inner = spec[2]
     if kind == 'dict':
         parts = [(realise(a, rng, shared), realise(b, rng, shared)) for a, b in inner[1]]
+        if cls != 'OrderedDict':          # (an OrderedDict's order is part of its value; the others compare without it)
+            rng.shuffle(parts)
     elif kind in ('list', 'tuple', 'set', 'frozenset'):
         parts = [realise(x, rng, shared) for x in inner[1]]
+        if kind in ('set', 'frozenset'):
+            rng.shuffle(parts)
     elif kind == 'array':
         if inner[0] == 'array':
             parts = np.array(inner[3], dtype=inner[1]).reshape(inner[2])
         else:
             parts = np.frombuffer(bytes.fromhex(inner[3]), dtype=np.dtype(np_descr(inner[1]))).reshape(inner[2]).copy()
+        parts = relayout(parts, rng)
     else:
         parts = realise(inner, rng, shared)
     return make(parts, tag)
@@ -185,6 +191,9 @@ LAMBDAS = {
     'l1': (lambda x: x + 1),
     'l2': (lambda x: x + 2),
     'la_again': (lambda x: x['a']),
+    # constants that are containers: a set display compiles to a frozenset constant, a tuple display to a tuple constant
+    'lin': (lambda x: x in {'p', 'q', 'r', 's'}),
+    'ltup': (lambda x: x in ('p', 1, 1.0, True, None, b'p')),
     # same byte-code, constants and names; they differ in a default argument / in a captured variable
     'ld0': (lambda x, k=0: x[k]),
     'ld1': (lambda x, k=1: x[k]),
@@ -390,8 +399,15 @@ def lambda_key(fn):
     return ('<lambda>', code_key(fn.__code__), env)
 
 
+WHOLE_BASES = (set, frozenset, dict, np.ndarray)
+SUBLEAVES = set()       # pickles of the leaves met by to_pv that are instances of a PROPER subclass of set / frozenset / dict / ndarray
+
+
 def leaf(o):
-    return '(Leaf %d)' % intern(pickle.dumps(o))
+    b = pickle.dumps(o)
+    if isinstance(o, WHOLE_BASES) and type(o) not in WHOLE_BASES:
+        SUBLEAVES.add(b)
+    return '(Leaf %d)' % intern(b)
 
 
 def plist(xs):
@@ -513,9 +529,100 @@ def isolated(specs, variant):
     return out
 
 
+def vkey(o):
+    """the VALUE of a realised object, independent of iteration / insertion order of sets and mappings (an OrderedDict excepted),
+    of array layout and of object identity; exact types kept.  Two realisations with equal vkey are the same argument value."""
+    t = type(o)
+    tn = t.__module__ + '.' + t.__qualname__
+    if isinstance(o, Task):
+        return ['Task', o.name, [vkey(a) for a in o.args], sorted([[k, vkey(v)] for k, v in o.kwargs.items()])]
+    if isinstance(o, Tasklet):
+        fn = o.f
+        if isinstance(fn, jug.task._getitem):
+            fk = ['getitem', vkey(fn.slice)]
+        elif getattr(fn, '__name__', '') == '<lambda>':
+            fk = ['lambda', vkey(lambda_key(fn))]
+        else:
+            fk = ['f', pickle.dumps(fn).hex()]
+        return ['Tasklet', vkey(o.base), fk]
+    if isinstance(o, jug.utils.CustomHash):
+        return ['CustomHash', bytes(o.hash_function(o.obj)).hex()]
+    if isinstance(o, jug.unsafe.NoHash):
+        return ['NoHash']
+    if isinstance(o, (jug.mapreduce.block_access, jug.mapreduce.block_access_slice)):
+        return [tn, sorted([[k, vkey(v)] for k, v in vars(o).items()])]
+    attrs = sorted([[k, vkey(v)] for k, v in getattr(o, '__dict__', {}).items()]) if isinstance(o, (list, tuple, set, frozenset, dict)) else []
+    if isinstance(o, collections.OrderedDict):
+        return [tn, [[vkey(k), vkey(v)] for k, v in o.items()], attrs]
+    if isinstance(o, dict):
+        extra = [repr(o.default_factory)] if isinstance(o, collections.defaultdict) else []
+        return [tn, sorted([[vkey(k), vkey(v)] for k, v in o.items()], key=json.dumps), attrs + extra]
+    if isinstance(o, (set, frozenset)):
+        return [tn, sorted([vkey(x) for x in o], key=json.dumps), attrs]
+    if isinstance(o, (list, tuple, collections.deque)):
+        return [tn, [vkey(x) for x in o], attrs]
+    if isinstance(o, np.ndarray):
+        base = np.asarray(o)
+        k = [tn, pickle.dumps(base.dtype).hex(), list(base.shape)]
+        if base.dtype.hasobject:
+            k.append([vkey(x) for x in base.ravel().tolist()])
+        else:
+            k.append(np.ascontiguousarray(base).tobytes().hex())
+        if isinstance(o, np.ma.MaskedArray):
+            k.append(np.ascontiguousarray(np.ma.getmaskarray(o)).tobytes().hex())
+        return k
+    return [tn, pickle.dumps(o).hex()]
+
+
+def chunk_tree(chunks):
+    """the recorded chunk sequence as a tree: ['D'|'P', subtree] for a nested digest / pickled digest, ['B', sha1 of the chunk,
+    is it the pickle of a proper-subclass leaf]"""
+    out = []
+    for c in chunks:
+        if c in DIGESTS:
+            out.append(['D', chunk_tree(DIGESTS[c])])
+        elif c in PICKLED:
+            out.append(['P', chunk_tree(DIGESTS[PICKLED[c]])])
+        else:
+            out.append(['B', hashlib.sha1(c).hexdigest()[:20], 1 if c in SUBLEAVES else 0])
+    return out
+
+
+def traced(items, variant):
+    """mode 'trace' (items = [[idx, spec], ..]): the two realisations the normal mode makes of spec idx, each hashed cold with the
+    recording hash object: identifier, chunk tree, value key"""
+    out = []
+    for idx, spec in items:
+        rec = {'i': idx, 'traces': []}
+        try:
+            for which, seed in (('first', variant * 1000003 + idx), ('second', variant * 7919 + idx + 17)):
+                jugrun.fresh()
+                DIGESTS.clear()
+                PICKLED.clear()
+                SUBLEAVES.clear()
+                obj = realise(spec, random.Random(seed), {})
+                install_recorder()
+                try:
+                    d = hash_one(obj)
+                    top = ident(obj)
+                finally:
+                    uninstall_recorder()
+                chunks = list(DIGESTS[d])
+                to_pv(obj)                  # registers the pickles of the proper-subclass leaves of THIS object
+                rec['traces'].append({'which': which, 'digest': top, 'hash_one': d.decode(), 'tree': chunk_tree(chunks), 'vkey': vkey(obj)})
+        except Exception as e:
+            uninstall_recorder()
+            rec['error'] = '%s: %s' % (type(e).__name__, e)
+        out.append(rec)
+    return out
+
+
 def main():
     specs = json.load(open(sys.argv[1]))
     variant = int(sys.argv[3])
+    if len(sys.argv) > 4 and sys.argv[4] == 'trace':
+        json.dump(traced(specs, variant), open(sys.argv[2], 'w'))
+        return
     if len(sys.argv) > 4 and sys.argv[4] == 'iso':
         json.dump(isolated(specs, variant), open(sys.argv[2], 'w'))
         return
